@@ -68,6 +68,15 @@ def to_coq(c):
             cb(r["name"]), cbl(r["files"]), cbl(r["select"]), cbl(r["ignore"]))
         return "CFileSet %s %s %s %s %d %s %s" % (
             cb("src"), tree, cb(c["p"]), rule, ERR.get(c.get("err", ""), 9), cb(c["out"]), cbl(c.get("outs")))
+    if op == "build":
+        if c.get("err"):
+            return None
+        tree = "[" + "; ".join("{| t_path := %s; t_dir := %s |}" % (cb(e["p"]), cbool(e["d"]))
+                               for e in c["tree"]) + "]"
+        r = c["rule"]
+        rule = "{| r_name := %s; r_files := %s; r_select := %s; r_ignore := %s |}" % (
+            cb(r["name"]), cbl(r["files"]), cbl(r["select"]), cbl(r["ignore"]))
+        return "CFileSet %s %s %s %s 0 %s %s" % (cb("src"), tree, cb(c["p"]), rule, cb(c["out"]), cbl(c.get("outs")))
     if op == "rule":
         k = {"bundle": "RBundle", "download": "RDownload", "docker_run": "RDockerRun",
              "sub_builds": "RSubBuilds"}[c["kind"]]
@@ -217,6 +226,16 @@ def impl_oracle(c):
         for o in [c["out"]] + (c.get("deps") or []) + (c.get("outs") or []):
             if not segs_clean(o) or o.startswith("/"):
                 return ("impl:rule:unclean", "rule %s resolved a name to %r" % (c["kind"], o))
+    if op == "build":
+        bad = [p for p in c.get("changed") or [] if not (p == "ws/out" or p.startswith("ws/out/"))]
+        if bad:
+            return ("impl:build:outside-out", "a build changed %r, outside the workspace's output tree" % bad[:4])
+        if not c.get("err"):
+            for o in [c["out"]] + (c.get("outs") or []):
+                if not segs_clean(o):
+                    return ("impl:build:unclean", "built file set lists %r" % o)
+            return oracle_fileset(c)
+        return None
     if op == "fileset":
         if not c.get("err") and not segs_clean(c["out"]):
             return ("impl:fileset:name", "file set name %r" % c["out"])
@@ -310,7 +329,7 @@ def run(ck):
 
         def ev(s):
             part = cases[s:s + shard]
-            txt = (head + ";\n  ".join(to_coq(c) for c in part) + "\n].\n"
+            txt = (head + ";\n  ".join(to_coq(c) or "CClean [] [46]" for c in part) + "\n].\n"
                    "Definition M := Eval vm_compute in mismatches cases.\nPrint M.\n")
             rc, out = ck.coq_eval("cases_%d" % (s // shard), txt)
             return s, (vlib.parse_coq_list_of_nat(out, "M") if rc == 0 else None), out
